@@ -235,13 +235,16 @@ CHECKS = {
         technique='TLA+ spec Cache.tla model-checked by TLC (kills, torn writes, I/O errors at every step, liveness); '
                   'real maybe_download/maybe_lzma_decompress explored breadth-first over fault-reachable cache '
                   'directories with the fault interposer and a fake network, every call sequence validated as a '
-                  'trace by TLC (CacheTrace.tla)',
+                  'trace by TLC (CacheTrace.tla); TLC-generated named fault schedules (CacheGen.tla) realised on the '
+                  'real code with the directory and request count compared after every fault',
         text='TLC exhausts the download/decompress protocol for all small payload sizes with up to 3-4 faults and '
              'proves FinalCompleteOrAbsent, reuse-without-network, stability of complete entries and eventual repair; '
              'every execution of the real functions under every single fault (kill before each effect, kill inside '
              'each write with two prefixes, OSError at each effect, network failure at each block) from every cache '
              'directory reachable by up to 2 (quick) / 3 (thorough) successive faults is accepted by the '
-             'specification with the real directory compared after every effect.',
+             'specification with the real directory compared after every effect; every fault schedule TLC derives from '
+             'the specification (kill, torn write, exception, repeated call; up to 2/3 faults) is realised at the named '
+             'control states of the real code and leaves the directory and request count the specification predicts.',
         note='In-process fault simulation; fake requests.get; payload sizes 0 B .. 3 transfer blocks; the CIFAR '
              'SQLite conversion step is modelled out; TLC, JVM.',
         design='5/C19'),
